@@ -126,6 +126,15 @@ def region_at(meta, line):
     return best
 
 
+# std functions for which vstd carries a specification (seen accepted by the installed Verus)
+STD_SPECIFIED = {'len', 'unwrap', 'unwrap_or', 'expect', 'is_some', 'is_none', 'is_ok', 'is_err', 'clone', 'push', 'pop', 'into', 'as_ref',
+                 'saturating_sub', 'saturating_add', 'saturating_mul', 'checked_add', 'checked_sub', 'checked_mul', 'wrapping_add',
+                 'wrapping_sub', 'wrapping_mul', 'min', 'max', 'map', 'and_then', 'ok_or', 'ok_or_else', 'unwrap_or_else', 'get', 'insert',
+                 'remove', 'contains_key', 'split_first', 'is_empty', 'to_vec', 'iter', 'new', 'from', 'try_from', 'try_into', 'abs',
+                 'leading_zeros', 'trailing_zeros', 'ilog2', 'eq', 'ne', 'lt', 'le', 'gt', 'ge', 'cmp', 'deref', 'to_owned', 'first',
+                 'last', 'swap', 'default', 'is_positive', 'is_negative', 'is_zero', 'signum'}
+
+
 def attribute(diag, meta):
     """Map one verification error to (obligation names, src location)."""
     spans = diag.get('spans', [])
@@ -446,6 +455,8 @@ def main():
     baseline_path = os.path.join(ROOT, 'baseline', 'obligations.json')
     baseline = jload(baseline_path, {})
     known = jload(os.path.join(ROOT, 'known_findings.json'), {'findings': []})['findings']
+    callees_path = os.path.join(ROOT, 'baseline', 'callees.json')
+    callees_base = jload(callees_path, {})
 
     results = {}
     undecided = []
@@ -534,9 +545,13 @@ def main():
             else:
                 full = [h['obligation'] for h in r['harnesses']] + [n for n in baseline.get(u, []) if n in ['kani/' + x for x in r.get('skipped_slow', [])]]
             baseline[u] = sorted(set(n for n in full if n not in r['failed']))
+            if r['kind'] == 'verus':
+                callees_base[u] = {it['fn']: it.get('callees', []) for it in r['meta']['items'] if it.get('role') == 'fn'}
         os.makedirs(os.path.dirname(baseline_path), exist_ok=True)
         with open(baseline_path, 'w') as f:
             json.dump(baseline, f, indent=1, sort_keys=True)
+        with open(callees_path, 'w') as f:
+            json.dump(callees_base, f, indent=1, sort_keys=True)
         print('baseline rewritten for %s' % ', '.join(units))
 
     # ---- baseline comparison
@@ -556,8 +571,26 @@ def main():
 
     violations = []
     known_hits = []
+    # callee names that occur in some body that verified on the pinned tree have a contract somewhere (vstd, prelude, unit)
+    specified = set(STD_SPECIFIED)
+    for uu, fns in callees_base.items():
+        for fnn, cs in fns.items():
+            specified.update(cs)
     for u, nme, errs in failed:
         full = '%s/%s' % (u, nme)
+        # A proof that fails because the changed body now calls a function for which no contract is known is UNDECIDED,
+        # not a violation (Verus treats an unspecified callee as returning anything): the bounded layer decides then.
+        r = results[u]
+        if r['kind'] == 'verus' and not nme.startswith('lemma/'):
+            fnq = nme.rsplit('/', 1)[0]
+            cur = next((it.get('callees', []) for it in r['meta']['items'] if it.get('role') == 'fn' and it['fn'] == fnq), None)
+            base = callees_base.get(u, {}).get(fnq)
+            if cur is not None and base is not None:
+                newc = [c for c in cur if c not in base and c not in specified]
+                if newc:
+                    undecided.append('%s fails, but the changed body calls %s, for which this unit has no contract: the proof is undecided, not refuted'
+                                     % (full, ', '.join('`%s`' % c for c in newc[:4])))
+                    continue
         kf = [k for k in known if k.get('property') == pid and k.get('obligation') == full and k.get('status') == 'known']
         if kf:
             known_hits.append((full, kf[0]))
